@@ -111,6 +111,14 @@ func c16(c *an.Ctx) {
 							if inc.Len() == 0 {
 								okAll = false
 								r.Fail(e.field+" via "+st.Caller.Name()+" from "+cs.Caller.Name()+": no increment", c.P.Pos(cs.Call.Pos()), "%s takes Data.%s as the new id but never increments the counter: the id is handed out twice", cs.Caller.Name(), e.counter)
+							} else if vid := g.VertexOf(cs.Call); vid >= 0 {
+								// post-increment idiom: once the value was taken, every way out of the function passes the increment
+								one := &an.Sites{F: g, Desc: e.field + " ← " + e.counter, List: []an.Site{{V: vid, Node: cs.Call}}}
+								if g.FPath([]int{g.G.Entry}, vid, inc.Vs(), nil) != nil {
+									if !g.FollowedBy(r, one, inc, nil, e.field+" taken from "+e.counter+" ⇒ counter incremented on every way out") {
+										okAll = false
+									}
+								}
 							}
 						}
 						if okAll && len(callers) > 0 {
@@ -610,5 +618,44 @@ func c16lookupAndVersions(c *an.Ctx) {
 				r6.Fail(f.Name+": version source", c.P.Pos(f.Body.Pos()), "createVersionMeasurement no longer derives the version from MstVersions")
 			}
 		}
+	}
+}
+
+func init() {
+	old := All["C16"].Run
+	All["C16"].Run = func(c *an.Ctx) {
+		old(c)
+		c16ptViewFollowsCluster(c)
+	}
+	All["C16"].Rules += " R7"
+}
+
+// c16ptViewFollowsCluster — C16.R7.  When a data node joins, every database's partition view is
+// extended to the cluster's partition count, and ExpandGroups then adds one shard per partition
+// to the live shard groups of EVERY database.  The two walk the same databases; a database whose
+// view is not extended (for whatever reason other than "already that long") gets shards owned by
+// partition ids that are not in PtView[db] — a dangling reference in the catalogue.
+func c16ptViewFollowsCluster(c *an.Ctx) {
+	const M = "lib/util/lifted/influx/meta"
+	r := c.Rule("C16.R7", "K-GUARD", M+":(*Data).expandDBPtView — the partition view is extended for every database; the only early return is 'already at the cluster partition count'")
+	f := fn(r, M+":Data.expandDBPtView")
+	if f == nil {
+		return
+	}
+	upd := f.Find(call(r, M+":Data.updatePtStatus"))
+	rets := f.Find(an.AnyReturn()).Filter("(explicit)", func(s an.Site) bool {
+		rs, ok := s.Node.(*ast.ReturnStmt)
+		return ok && rs.Return != f.Body.Rbrace // go/cfg adds an implicit return at the closing brace
+	})
+	r.AddSites(upd.Len() + rets.Len())
+	if r.Failed() {
+		return
+	}
+	if upd.Len() == 0 {
+		r.Fail(f.Name+": no extension", c.P.Pos(f.Body.Pos()), "expandDBPtView no longer registers the new partitions")
+		return
+	}
+	if rets.Len() > 0 {
+		f.Guarded(r, rets, "early return only when the view already has the cluster's partition count", an.AtomLike(`^p1==uint32\(len\(.*DBPtView\(p0\)\)\)$`, true))
 	}
 }
